@@ -33,10 +33,10 @@ def jit_rows():
         Row("emit-offset", r"^jit::JitCompiler::emit", r"^Overflow\(Add\)\(\*arg2<&mut jit::JitMemory<'_>>\.offset,mem::size_of\(\)\)$", "A",
             "code size is below 2^32: at most 1,000,000 instructions (C06) of a bounded number of bytes each"),
         Row("rex-bits", r"^jit::JitCompiler::emit_(rex|modrm)$", r"^panic!assert_eq@$", "D1",
-            "callers pass 0/1 literals or the 0/1 result of the mask test; modrm callers pass 0x00/0x40/0x80/0xc0 literals (R12.f)",
+            "no arm, for any register pair, reaches the assert with other values: decided by evaluating every arm (R12.f)",
             cites=("R12.f",)),
         Row("pc-locs", r"^jit::JitCompiler::jit_compile$", r"^index:IndexMut<I>>::index_mut\(&\*arg1<&mut jit::JitCompiler>\.pc_locs,mut<usize>\)$", "D1",
-            "pc_locs has n+1 entries (`vec![0; len/8 + 1]`) and the loop guard keeps the index below n"),
+            "pc_locs has n+1 entries (R12.m) and the loop guard keeps the index below n", cites=("R12.m",)),
         Row("map-register", r"^jit::JitCompiler::jit_compile$", r"^precond:jit::map_register<-", "D3",
             "register numbers of a verified program are <= 10, and the loop only decodes verified slots", cites=("C06/R06.b", "R12.k")),
         Row("tail-call", r"^jit::JitCompiler::jit_compile$", r"^panic!unimplemented@u8=141$", "D3",
@@ -298,6 +298,51 @@ def run(rep, tier):
                 fills += 1
     rep.ob(rl, "insn_blocks", fills >= 1 and not over, "writes to the pc -> block map", expected="entry(pc).or_insert_with(create_block) only",
            found=over or "%d entry() sites, no insert()" % fills)
+
+    # R12.f / R12.g / R12.m: the facts the "proved by reading" rows (rex-bits, unknown-opc, pc-locs) rest on
+    if im.ok and jm.ok:
+        rf_ = rep.rule("R12.f", "x86 JIT: evaluating the arm of every supported opcode, for each register pair, reaches no panicking call (emit_rex / emit_modrm asserts, unreachable!)", floor=100)
+        import props.c03 as c03
+        prs = [(d_, s_) for d_ in range(11) for s_ in range(11)] if tier == "thorough" else c03.QUICK_PAIRS
+        for v, d in sorted(isa.TABLE.items()):
+            if d["kind"] in ("tail_call", "end"):
+                continue        # tail call: refused by the verifier; LE/BE: the width `unreachable!()` has its own row (C06/R06.b)
+            bad = []
+            for dd, ss in prs:
+                if d["kind"] == "call":
+                    ss = ss % 2
+                for t in jm.templates(v, dd, ss):
+                    if t["err"] == "panic":
+                        bad.append((dd, ss))
+                        break
+            rep.ob(rf_, "opc=%#04x" % v, not bad, "JIT arm of opcode %#04x over %d register pairs" % (v, len(prs)), expected="no panicking path", found=bad[:4] or "none")
+        rg_ = rep.rule("R12.g", "both compilers have an arm for every opcode the verifier accepts", floor=2)
+        from dispatch import opcode_matches
+        supported = {v for v, d in isa.TABLE.items() if d["kind"] != "tail_call"}
+        for label, fnp, F_ in (("jit", jm.fn, F), ("cranelift", ccx.roles.cranelift_translate(), ccx.F)):
+            ms = opcode_matches(F_.fns[fnp], 100) if fnp and fnp in F_.fns else []
+            handled = ms[0].handled() if ms else set()
+            rep.ob(rg_, label, supported <= handled, "%s: opcodes without an arm" % label, expected=[], found=sorted("%#04x" % v for v in supported - handled))
+        rm_ = rep.rule("R12.m", "x86 JIT: pc_locs holds one entry per instruction plus one (indexed by pc and by validated jump targets <= n)", floor=1)
+        allocs = []
+        fnj = F.fns.get(jm.fn)
+        for n in walk(fnj["thir"]["body"]):
+            if n.get("k") == "assign" and "pc_locs" in repr(strip(n["l"]))[:600]:
+                allocs.append(n)
+        okm, foundm = False, "%d assignments to pc_locs" % len(allocs)
+        if len(allocs) == 1:
+            ev_ = symex.Evaluator(F)
+            owner_ = ev_.owner_of(jm.fn)
+            stm = symex.St()
+            for q in fnj["thir"]["params"]:
+                if q["pat"] and q["pat"].get("k") == "bind" and q["ty"].endswith("[u8]"):
+                    stm = stm.set((owner_, q["pat"]["id"]), ("obj", "PROG", q["ty"]))
+            vals = ev_.ev(allocs[0]["r"], stm, jm.fn)
+            fe = [e for _v, s2 in vals for e in s2.effects if e[0] == "call" and e[1] == "core::vec::from_elem"]
+            want = T.op("add", 64, T.op("udiv", 64, ("call", "len", (("obj", "PROG", "&[u8]"),), 64), T.K(64, 8)), T.K(64, 1))
+            okm = len(fe) == 1 and fe[0][2][1] == want
+            foundm = [T.show(e[2][1]) for e in fe] or foundm
+        rep.ob(rm_, "alloc", okm, "length of pc_locs", expected="len(prog) / 8 + 1", found=foundm)
 
     # R12.e repeatability
     re_ = rep.rule("R12.e", "no clock / RNG / environment access reachable from the compilers", floor=1)
